@@ -665,7 +665,7 @@ def _bool_taint(body, seeds):
     return t
 
 
-def eval_guard(body, atom_vals, max_states=20000, start=0, env0=None, extra_tracked=(), no_nodes=(), frozen=()):
+def eval_guard(body, atom_vals, max_states=20000, start=0, env0=None, extra_tracked=(), no_nodes=(), frozen=(), stmt_vals=None):
     """Path-sensitive abstract walk of the CFG under a valuation of atom calls.
 
     atom_vals: {bb_of_call: bool}  — the value returned by the (bool-returning) call terminating block bb.
@@ -679,6 +679,11 @@ def eval_guard(body, atom_vals, max_states=20000, start=0, env0=None, extra_trac
         t = body.term(bb)
         if t["t"] == "call" and len(t["dest"]) == 1:
             seeds.add(t["dest"][0])
+    stmt_vals = stmt_vals or {}
+    for (sbb, sidx) in stmt_vals:
+        st = body.blocks[sbb]["s"][sidx]
+        if st[0] == "A" and len(st[1]) == 1:
+            seeds.add(st[1][0])
     tracked = _bool_taint(body, seeds | set(extra_tracked))
     reach = set()
     rets = set()
@@ -696,7 +701,10 @@ def eval_guard(body, atom_vals, max_states=20000, start=0, env0=None, extra_trac
             return body.live_blocks(), {None}
         reach.add(bb)
         env = dict(envt)
-        for s in body.blocks[bb]["s"]:
+        for s_i, s in enumerate(body.blocks[bb]["s"]):
+            if (bb, s_i) in stmt_vals and s[0] == "A" and len(s[1]) == 1:
+                env[s[1][0]] = stmt_vals[(bb, s_i)]
+                continue
             if s[0] == "A" and len(s[1]) == 1 and s[1][0] in frozen:
                 continue
             if s[0] == "A" and len(s[1]) == 1 and s[1][0] in tracked:
